@@ -85,42 +85,43 @@ Definition row_pairs (kind : Z) (b a : list (list cellv)) : list rpair :=
   | _ => map (fun p => (Some (fst p), Some (snd p))) (combine b a)
   end.
 
-Definition opt_enc (tys : list coltype) (o : option (list cellv)) : bytes :=
-  match o with Some img => enc_image tys img | None => [] end.
-Definition enc_pair (tys : list coltype) (p : rpair) : bytes := opt_enc tys (fst p) ++ opt_enc tys (snd p).
-Definition opt_nulls (o : option (list cellv)) : bitmap :=
-  match o with Some img => expect_bitmap (null_bits img) | None => bitmap_zero end.
+(* pn: the padding pattern of the NULL bitmaps (arbitrary) *)
+Definition opt_enc (pn : Z) (tys : list coltype) (o : option (list cellv)) : bytes :=
+  match o with Some img => enc_image pn tys img | None => [] end.
+Definition enc_pair (pn : Z) (tys : list coltype) (p : rpair) : bytes := opt_enc pn tys (fst p) ++ opt_enc pn tys (snd p).
+Definition opt_nulls (pn : Z) (o : option (list cellv)) : bitmap :=
+  match o with Some img => expect_bitmap pn (null_bits img) | None => bitmap_zero end.
 
-Lemma zip_rows_pairs tys kind b a : kind = 0 \/ kind = 1 \/ kind = 2 ->
-  zip_rows tys kind b a = flat_map (enc_pair tys) (row_pairs kind b a).
+Lemma zip_rows_pairs pn tys kind b a : kind = 0 \/ kind = 1 \/ kind = 2 ->
+  zip_rows pn tys kind b a = flat_map (enc_pair pn tys) (row_pairs kind b a).
 Proof.
   intros [-> | [-> | ->]]; unfold row_pairs.
-  - assert (E : zip_rows tys 0 b a = flat_map (enc_image tys) a) by (destruct b; reflexivity).
+  - assert (E : zip_rows pn tys 0 b a = flat_map (enc_image pn tys) a) by (destruct b; reflexivity).
     rewrite E. clear E. induction a as [|y a IH]; [reflexivity|]. cbn [flat_map map]. rewrite IH. reflexivity.
   - revert a. induction b as [|x b IH]; intros [|y a]; try reflexivity.
     cbn [zip_rows combine map flat_map]. rewrite IH. unfold enc_pair. cbn [fst snd opt_enc].
     rewrite <- app_assoc. reflexivity.
-  - assert (E : zip_rows tys 2 b a = flat_map (enc_image tys) b) by (destruct b; reflexivity).
+  - assert (E : zip_rows pn tys 2 b a = flat_map (enc_image pn tys) b) by (destruct b; reflexivity).
     rewrite E. clear E. induction b as [|x b IH]; [reflexivity|]. cbn [flat_map map]. rewrite IH.
     unfold enc_pair. cbn [fst snd opt_enc]. rewrite app_nil_r. reflexivity.
 Qed.
 
-Lemma expect_row_list_pairs tys kind b a : kind = 0 \/ kind = 1 \/ kind = 2 ->
-  expect_row_list tys kind b a = map (fun p => expect_row tys kind (fst p) (snd p)) (row_pairs kind b a).
+Lemma expect_row_list_pairs pn tys kind b a : kind = 0 \/ kind = 1 \/ kind = 2 ->
+  expect_row_list pn tys kind b a = map (fun p => expect_row pn tys kind (fst p) (snd p)) (row_pairs kind b a).
 Proof.
   intros [-> | [-> | ->]]; unfold row_pairs.
-  - assert (E : expect_row_list tys 0 b a = map (fun img => expect_row tys 0 None (Some img)) a) by (destruct b; reflexivity).
+  - assert (E : expect_row_list pn tys 0 b a = map (fun img => expect_row pn tys 0 None (Some img)) a) by (destruct b; reflexivity).
     rewrite E, map_map. reflexivity.
   - revert a. induction b as [|x b IH]; intros [|y a]; try reflexivity.
     cbn [expect_row_list combine map]. rewrite IH. reflexivity.
-  - assert (E : expect_row_list tys 2 b a = map (fun img => expect_row tys 2 (Some img) None) b) by (destruct b; reflexivity).
+  - assert (E : expect_row_list pn tys 2 b a = map (fun img => expect_row pn tys 2 (Some img) None) b) by (destruct b; reflexivity).
     rewrite E, map_map. reflexivity.
 Qed.
 
-Lemma enc_image_nonempty tys img : existsb (fun x => x) (present_bits img) = true ->
-  (1 <= length (enc_image tys img))%nat.
+Lemma enc_image_nonempty pn tys img : existsb (fun x => x) (present_bits img) = true ->
+  (1 <= length (enc_image pn tys img))%nat.
 Proof.
-  intros H. unfold enc_image. rewrite app_length, pack_bits_length, null_bits_count.
+  intros H. unfold enc_image. rewrite app_length, pack_bits_pad_length, null_bits_count.
   assert (1 <= count_true (present_bits img))%nat; [|lia].
   unfold count_true. induction (present_bits img) as [|b l IH]; [discriminate|].
   cbn [existsb filter] in *. destruct b; cbn [length]; [lia|]. apply IH. exact H.
@@ -128,6 +129,7 @@ Qed.
 
 (* ---------- the row loop ---------- *)
 Section Loop.
+Variables pc pn : Z.     (* padding patterns of the presence bitmaps and of the NULL bitmaps: arbitrary *)
 Variable tm : table_map.
 Variable tys : list coltype.
 Hypothesis Htypes : tm_types tm = map code_of tys.
@@ -140,56 +142,56 @@ Definition side_ok (h : bool) (pres : list bool) (o : option (list cellv)) : Pro
   else o = None.
 
 Lemma read_side h cols n pres o pre rest :
-  side_ok h pres o -> (h = true -> cols = expect_bitmap pres /\ n = count_true pres) ->
-  (if h then do (nb, s, p) <- read_image tm cols (length tys) n (pre ++ opt_enc tys o ++ rest) (length pre);
+  side_ok h pres o -> (h = true -> cols = expect_bitmap pc pres /\ n = count_true pres) ->
+  (if h then do (nb, s, p) <- read_image tm cols (length tys) n (pre ++ opt_enc pn tys o ++ rest) (length pre);
              Ok ((nb, Some s), p)
    else Ok ((bitmap_zero, None), length pre))
-  = Ok ((opt_nulls o, option_map (image_cells tys) o), (length pre + length (opt_enc tys o))%nat).
+  = Ok ((opt_nulls pn o, option_map (image_cells tys) o), (length pre + length (opt_enc pn tys o))%nat).
 Proof.
   intros S C. destruct h; cbn [side_ok] in S.
   - destruct S as (img & -> & Hp & Hf & _). destruct (C eq_refl) as [-> ->]. subst pres.
     cbn [opt_enc opt_nulls option_map].
-    rewrite (read_image_ok tm tys img Htypes Hmeta Hf). reflexivity.
+    rewrite (read_image_ok pc pn tm tys img Htypes Hmeta Hf). reflexivity.
   - subst o. cbn [opt_enc opt_nulls option_map length]. do 2 f_equal. lia.
 Qed.
 
-Lemma side_len h pres o : side_ok h pres o -> h = true -> (1 <= length (opt_enc tys o))%nat.
+Lemma side_len h pres o : side_ok h pres o -> h = true -> (1 <= length (opt_enc pn tys o))%nat.
 Proof.
   intros S ->. cbn [side_ok] in S. destruct S as (img & -> & Hp & _ & He). cbn [opt_enc].
   apply enc_image_nonempty. rewrite Hp. exact He.
 Qed.
 
 Variables (hi hd : bool) (ipres dpres : list bool) (icols dcols : bitmap) (ni nd : nat) (kind : Z).
-Hypothesis Hi : hi = true -> icols = expect_bitmap ipres /\ ni = count_true ipres.
-Hypothesis Hd : hd = true -> dcols = expect_bitmap dpres /\ nd = count_true dpres.
+Hypothesis Hi : hi = true -> icols = expect_bitmap pc ipres /\ ni = count_true ipres.
+Hypothesis Hd : hd = true -> dcols = expect_bitmap pc dpres /\ nd = count_true dpres.
 Hypothesis Hsome : hi || hd = true.
 
 Lemma read_rows_ok ps :
   Forall (fun p => side_ok hi ipres (fst p) /\ side_ok hd dpres (snd p)) ps ->
-  forall pre acc fuel, (length (flat_map (enc_pair tys) ps) < fuel)%nat ->
-  read_rows fuel tm hi hd icols dcols (length tys) ni nd (pre ++ flat_map (enc_pair tys) ps) (length pre) acc
-  = Ok (rev acc ++ map (fun p => expect_row tys kind (fst p) (snd p)) ps).
+  forall pre acc fuel, (length (flat_map (enc_pair pn tys) ps) < fuel)%nat ->
+  read_rows fuel tm hi hd icols dcols (length tys) ni nd (pre ++ flat_map (enc_pair pn tys) ps) (length pre) acc
+  = Ok (rev acc ++ map (fun p => expect_row pn tys kind (fst p) (snd p)) ps).
 Proof.
   induction 1 as [|p ps [S1 S2] HF IH]; intros pre acc fuel Hfuel.
   - destruct fuel as [|k]; [lia|]. cbn [flat_map read_rows map]. rewrite app_nil_r.
     rewrite Nat.leb_refl. rewrite rev_append_rev. reflexivity.
   - destruct fuel as [|k]; [lia|]. destruct p as [ob oa]. cbn [fst snd] in *.
-    change (flat_map (enc_pair tys) ((ob, oa) :: ps))
-      with ((opt_enc tys ob ++ opt_enc tys oa) ++ flat_map (enc_pair tys) ps) in *.
+    change (flat_map (enc_pair pn tys) ((ob, oa) :: ps))
+      with ((opt_enc pn tys ob ++ opt_enc pn tys oa) ++ flat_map (enc_pair pn tys) ps) in *.
     cbn [read_rows map fst snd].
-    assert (L1 : (1 <= length (opt_enc tys ob) + length (opt_enc tys oa))%nat).
+    assert (L1 : (1 <= length (opt_enc pn tys ob) + length (opt_enc pn tys oa))%nat).
     { destruct hi eqn:E1.
       - pose proof (side_len true ipres ob S1 eq_refl). lia.
       - destruct hd eqn:E2; [|discriminate Hsome]. pose proof (side_len true dpres oa S2 eq_refl). lia. }
     rewrite !app_length.
-    destruct (Nat.leb_spec (length pre + (length (opt_enc tys ob) + length (opt_enc tys oa) +
-                            length (flat_map (enc_pair tys) ps))) (length pre)) as [L|_]; [lia|].
-    rewrite <- (app_assoc (opt_enc tys ob)).
+    destruct (Nat.leb_spec (length pre + (length (opt_enc pn tys ob) + length (opt_enc pn tys oa) +
+                            length (flat_map (enc_pair pn tys) ps))) (length pre)) as [L|_]; [lia|].
+    rewrite <- (app_assoc (opt_enc pn tys ob)).
     rewrite (read_side hi icols ni ipres ob pre _ S1 Hi). cbn [bind fst snd].
     rewrite <- app_length.
-    rewrite (app_assoc pre (opt_enc tys ob)).
-    rewrite (read_side hd dcols nd dpres oa (pre ++ opt_enc tys ob) _ S2 Hd). cbn [bind fst snd].
-    rewrite <- app_length. rewrite (app_assoc (pre ++ opt_enc tys ob)).
+    rewrite (app_assoc pre (opt_enc pn tys ob)).
+    rewrite (read_side hd dcols nd dpres oa (pre ++ opt_enc pn tys ob) _ S2 Hd). cbn [bind fst snd].
+    rewrite <- app_length. rewrite (app_assoc (pre ++ opt_enc pn tys ob)).
     rewrite IH.
     + cbn [rev]. rewrite <- app_assoc. reflexivity.
     + rewrite !app_length in Hfuel. lia.
@@ -240,6 +242,7 @@ Proof.
 Qed.
 
 Section RowsParse.
+Variables pc pn : Z.     (* padding patterns of the presence bitmaps and of the NULL bitmaps: arbitrary *)
 Variable ffmt : Z -> Z -> bytes.
 Variable tz : Z -> Z.
 Variable jsonp : bytes -> res bytes.
@@ -265,9 +268,9 @@ Let n := length tys.
 Let ipres := first_present before n.
 Let dpres := first_present after n.
 Let EX : bytes := if v2 then le_enc 2 (2 + len extra) ++ extra else [].
-Let B1 : bytes := if kind =? 0 then [] else pack_bits ipres.
-Let B2 : bytes := if kind =? 2 then [] else pack_bits dpres.
-Let ROWS : bytes := zip_rows tys kind before after.
+Let B1 : bytes := if kind =? 0 then [] else pack_bits_pad pc ipres.
+Let B2 : bytes := if kind =? 2 then [] else pack_bits_pad pc dpres.
+Let ROWS : bytes := zip_rows pn tys kind before after.
 Let data : bytes := tid ++ le_enc 2 flags ++ EX ++ enc_lenenc (Z.of_nat n) ++ B1 ++ B2 ++ ROWS.
 
 Ltac seg := unfold data; rewrite <- ?app_assoc; reflexivity.
@@ -312,9 +315,9 @@ Proof. intros K. unfold dpres. rewrite n_cols. apply first_present_length. auto.
 Lemma rows_parse_ok :
   rows_parse tm typ data (length tid) =
   Ok {| rs_flags := flags;
-        rs_ident_cols := if kind =? 0 then bitmap_zero else expect_bitmap ipres;
-        rs_data_cols := if kind =? 2 then bitmap_zero else expect_bitmap dpres;
-        rs_rows := expect_row_list tys kind before after |}.
+        rs_ident_cols := if kind =? 0 then bitmap_zero else expect_bitmap pc ipres;
+        rs_data_cols := if kind =? 2 then bitmap_zero else expect_bitmap pc dpres;
+        rs_rows := expect_row_list pn tys kind before after |}.
 Proof.
   unfold rows_parse.
   erewrite (le_at_seg data tid (le_enc 2 flags)); [|seg|reflexivity|lens]. cbn [bind].
@@ -338,7 +341,7 @@ Proof.
   (* the column count is covered by the bitmaps that follow *)
   assert (LB : ((n + 7) / 8 <= length (B1 ++ B2))%nat).
   { unfold B1, B2. rewrite app_length. destruct Hkind as [K|[K|K]]; rewrite K; cbn [Z.eqb Pos.eqb length];
-      rewrite ?pack_bits_length, ?ipres_length, ?dpres_length by lia; lia. }
+      rewrite ?pack_bits_pad_length, ?ipres_length, ?dpres_length by lia; lia. }
   assert (LD : (length P3 + length (B1 ++ B2) + length ROWS = length data)%nat).
   { unfold data. subst P3 P2. rewrite !app_length. lia. }
   destruct (Z.gtb_spec (Z.of_nat n) (8 * (len data + 1))) as [G|_]; [unfold len in G; lia|].
@@ -346,36 +349,36 @@ Proof.
   set (P4 := P3 ++ B1).
   assert (A4 : (if has_identify typ then do (b, p) <- new_bitmap data (length P3) n; do k <- bit_count b; Ok (b, k, p)
                 else Ok (bitmap_zero, 0%nat, length P3))
-               = Ok (if kind =? 0 then bitmap_zero else expect_bitmap ipres,
+               = Ok (if kind =? 0 then bitmap_zero else expect_bitmap pc ipres,
                      if kind =? 0 then 0%nat else count_true ipres, length P4)).
   { rewrite Tid. subst P4. destruct (Z.eqb_spec kind 0) as [K|K]; cbn [negb].
     - assert (EB : B1 = []) by reflexivity.
       rewrite EB, app_nil_r. reflexivity.
-    - assert (EB : B1 = pack_bits ipres) by reflexivity.
+    - assert (EB : B1 = pack_bits_pad pc ipres) by reflexivity.
       rewrite EB.
-      erewrite (new_bitmap_seg data P3 ipres); [|rewrite <- EB; subst P3 P2; seg|reflexivity|rewrite ipres_length by exact K; reflexivity].
+      erewrite (new_bitmap_seg pc data P3 ipres); [|rewrite <- EB; subst P3 P2; seg|reflexivity|rewrite ipres_length by exact K; reflexivity].
       cbn [bind]. rewrite bitmap_count_ok. cbn [bind]. do 2 f_equal.
-      rewrite app_length, pack_bits_length, ipres_length by exact K. reflexivity. }
+      rewrite app_length, pack_bits_pad_length, ipres_length by exact K. reflexivity. }
   rewrite A4. cbn [bind].
   set (P5 := P4 ++ B2).
   assert (A5 : (if has_data typ then do (b, p) <- new_bitmap data (length P4) n; do k <- bit_count b; Ok (b, k, p)
                 else Ok (bitmap_zero, 0%nat, length P4))
-               = Ok (if kind =? 2 then bitmap_zero else expect_bitmap dpres,
+               = Ok (if kind =? 2 then bitmap_zero else expect_bitmap pc dpres,
                      if kind =? 2 then 0%nat else count_true dpres, length P5)).
   { rewrite Tdata. subst P5. destruct (Z.eqb_spec kind 2) as [K|K]; cbn [negb].
     - assert (EB : B2 = []) by reflexivity.
       rewrite EB, app_nil_r. reflexivity.
-    - assert (EB : B2 = pack_bits dpres) by reflexivity.
+    - assert (EB : B2 = pack_bits_pad pc dpres) by reflexivity.
       rewrite EB.
-      erewrite (new_bitmap_seg data P4 dpres); [|rewrite <- EB; subst P4 P3 P2; seg|reflexivity|rewrite dpres_length by exact K; reflexivity].
+      erewrite (new_bitmap_seg pc data P4 dpres); [|rewrite <- EB; subst P4 P3 P2; seg|reflexivity|rewrite dpres_length by exact K; reflexivity].
       cbn [bind]. rewrite bitmap_count_ok. cbn [bind]. do 2 f_equal.
-      rewrite app_length, pack_bits_length, dpres_length by exact K. reflexivity. }
+      rewrite app_length, pack_bits_pad_length, dpres_length by exact K. reflexivity. }
   rewrite A5. cbn [bind].
   (* the rows *)
-  assert (ED : data = P5 ++ flat_map (enc_pair tys) (row_pairs kind before after)).
+  assert (ED : data = P5 ++ flat_map (enc_pair pn tys) (row_pairs kind before after)).
   { rewrite <- zip_rows_pairs by exact Hkind. subst P5 P4 P3 P2. fold ROWS. seg. }
   rewrite Tid, Tdata. rewrite ED at 2.
-  rewrite (read_rows_ok tm tys Htypes Hmeta (negb (kind =? 0)) (negb (kind =? 2)) ipres dpres _ _ _ _ kind).
+  rewrite (read_rows_ok pc pn tm tys Htypes Hmeta (negb (kind =? 0)) (negb (kind =? 2)) ipres dpres _ _ _ _ kind).
   - cbn [bind rev app]. rewrite <- expect_row_list_pairs by exact Hkind. reflexivity.
   - intros K. destruct (kind =? 0); [discriminate K|]. split; reflexivity.
   - intros K. destruct (kind =? 2); [discriminate K|]. split; reflexivity.
@@ -418,13 +421,14 @@ Variable jsonp : bytes -> res bytes.
 
 (* Rows on the event the master wrote: any header length, checksum on or off, v1 or v2 (any
    extra-data block), 4- or 6-byte table ids, write / update / delete, any number of rows,
-   any presence and NULL patterns *)
+   any presence and NULL patterns, any padding patterns in the unused bits of the presence
+   bitmaps (c_pad_cols c) and of the rows' NULL bitmaps (c_pad_null c) *)
 Theorem rows_roundtrip c v h cols tm r crc :
   wf_cfg c = true -> family_cols ffmt tz jsonp cols -> wf_rows_def cols r ->
   tm_types tm = col_codes cols -> tm_meta tm = map (fun p => meta_of (fst p)) cols ->
   h_type h = rows_type c (rd_kind r) ->
   (do ev <- strip_checksum56 (expect_format c v) (enc_ev c h (enc_rows_body c (map fst cols) r) crc);
-   ev_rows (expect_format c v) tm ev) = Ok (expect_rows (map fst cols) r).
+   ev_rows (expect_format c v) tm ev) = Ok (expect_rows c (map fst cols) r).
 Proof.
   intros Wc Fam (Hk & Hfl & Hex & Hn & Hb & Ha) Ht Hm Hh.
   destruct (rows_type_facts c (rd_kind r) Hk) as (T1 & T2 & T3 & T4).
@@ -436,18 +440,18 @@ Proof.
   replace (if c_tid4 c then 4%nat else 6%nat) with (length (enc_table_id c (rd_id r)))
     by apply enc_table_id_length.
   unfold enc_rows_body, expect_rows.
-  apply (rows_parse_ok ffmt tz jsonp tm cols); auto.
+  apply (rows_parse_ok (c_pad_cols c) (c_pad_null c) ffmt tz jsonp tm cols); auto.
   - rewrite Ht. unfold col_codes. rewrite map_map. reflexivity.
   - rewrite Hm. rewrite map_map. reflexivity.
 Qed.
 
 (* with the table map decoded from the master's table-map event for the same column types *)
-Corollary rows_roundtrip_tm c v h cols t r crc :
+Corollary rows_roundtrip_tm c v h cols pt t r crc :
   wf_cfg c = true -> family_cols ffmt tz jsonp cols -> wf_rows_def cols r ->
   map fst (td_cols t) = map fst cols ->
   h_type h = rows_type c (rd_kind r) ->
   (do ev <- strip_checksum56 (expect_format c v) (enc_ev c h (enc_rows_body c (map fst cols) r) crc);
-   ev_rows (expect_format c v) (expect_table_map t) ev) = Ok (expect_rows (map fst cols) r).
+   ev_rows (expect_format c v) (expect_table_map pt t) ev) = Ok (expect_rows c (map fst cols) r).
 Proof.
   intros Wc Fam Wr E Hh. apply rows_roundtrip; auto; cbn [expect_table_map tm_types tm_meta]; unfold col_codes.
   - rewrite <- (map_map fst code_of), E, map_map. reflexivity.
@@ -481,6 +485,7 @@ Qed.
 
 (* ---------- one image, column by column (streamer.go get{Values,Identifies}FromRow) ---------- *)
 Section ImageConsumed.
+Variables pc pn : Z.     (* padding patterns of the presence bitmap and of the NULL bitmap: arbitrary *)
 Variable ffmt : Z -> Z -> bytes.
 Variable tz : Z -> Z.
 Variable jsonp : bytes -> res bytes.
@@ -497,7 +502,7 @@ Theorem image_consumed tm ti specs img rest :
   tm_meta tm = map (fun s => meta_of (cs_type s)) specs ->
   ti_cols ti = map (fun s => (cs_name s, cs_uns s)) specs ->
   wf_image (specs_cols specs) (present_bits img) img = true ->
-  image_of ffmt tz jsonp tm ti (expect_bitmap (present_bits img)) (expect_bitmap (null_bits img))
+  image_of ffmt tz jsonp tm ti (expect_bitmap pc (present_bits img)) (expect_bitmap pn (null_bits img))
            (Some (image_cells (map cs_type specs) img ++ rest))
   = Ok (Some (expect_columns ffmt tz specs img)).
 Proof.
@@ -542,7 +547,7 @@ Theorem three_way_image tm ti specs img rest :
   ti_cols ti = map (fun s => (cs_name s, cs_uns s)) specs ->
   wf_image (specs_cols specs) (present_bits img) img = true ->
   exists cs,
-    image_of ffmt tz jsonp tm ti (expect_bitmap (present_bits img)) (expect_bitmap (null_bits img))
+    image_of ffmt tz jsonp tm ti (expect_bitmap pc (present_bits img)) (expect_bitmap pn (null_bits img))
              (Some (image_cells (map cs_type specs) img ++ rest)) = Ok (Some cs) /\
     Forall2 three_way img cs.
 Proof.
@@ -565,25 +570,25 @@ Proof.
   intros p Hp. destruct (H p Hp) as [W N]. split; [exact W|]. apply proved_families; assumption.
 Qed.
 
-Theorem rows_roundtrip_proved c v h cols t r crc :
+Theorem rows_roundtrip_proved c v h cols pt t r crc :
   wf_cfg c = true -> proved_cols cols -> wf_rows_def cols r ->
   map fst (td_cols t) = map fst cols ->
   h_type h = rows_type c (rd_kind r) ->
   (do ev <- strip_checksum56 (expect_format c v) (enc_ev c h (enc_rows_body c (map fst cols) r) crc);
-   ev_rows (expect_format c v) (expect_table_map t) ev) = Ok (expect_rows (map fst cols) r).
+   ev_rows (expect_format c v) (expect_table_map pt t) ev) = Ok (expect_rows c (map fst cols) r).
 Proof.
   intros Wc P Wr E Hh.
   apply (rows_roundtrip_tm (fun _ _ => []) (fun _ => 0) (fun _ => Err EJson)); auto.
   apply proved_cols_family; [intros; lia|exact P].
 Qed.
 
-Theorem image_consumed_proved ffmt tz jsonp tm ti specs img rest :
+Theorem image_consumed_proved pc pn ffmt tz jsonp tm ti specs img rest :
   (forall v, -86400 <= tz v <= 86400) -> proved_cols (specs_cols specs) ->
   tm_types tm = map (fun s => code_of (cs_type s)) specs ->
   tm_meta tm = map (fun s => meta_of (cs_type s)) specs ->
   ti_cols ti = map (fun s => (cs_name s, cs_uns s)) specs ->
   wf_image (specs_cols specs) (present_bits img) img = true ->
-  image_of ffmt tz jsonp tm ti (expect_bitmap (present_bits img)) (expect_bitmap (null_bits img))
+  image_of ffmt tz jsonp tm ti (expect_bitmap pc (present_bits img)) (expect_bitmap pn (null_bits img))
            (Some (image_cells (map cs_type specs) img ++ rest))
   = Ok (Some (expect_columns ffmt tz specs img)).
 Proof.
